@@ -265,6 +265,7 @@ def gen_content_programs(seed, tier):
         p.ops.append("dump c0/content-v2")
     progs += P.gen_size_matrix(G.Rng(seed + 34))
     progs += P.gen_extraction_programs(G.Rng(seed + 35), N(tier, 30, 300))      # extractions never harm the content area
+    progs += P.gen_cancel_programs(G.Rng(seed + 36))       # async writers with a cancelled write future (implementation only)
     return progs
 
 
@@ -280,7 +281,8 @@ def mon_content_valid(rr):
 
 reg("C03",
     gen=gen_content_programs,
-    monitors=[mon_content_valid, P.mon_size_matrix, lambda rr: P.mon_extraction(rr) if "steps" in rr.prog.tags else []],
+    monitors=[mon_content_valid, P.mon_size_matrix, lambda rr: P.mon_extraction(rr) if "steps" in rr.prog.tags else [],
+              lambda rr: P.mon_cancel(rr) if "cancel" in rr.prog.tags else []],
     extra=lambda seed, tier, flavours: merge(
         LG.leg_skeleton(P.gen_roundtrip_programs(G.Rng(seed + 31), N(tier, 10, 60)), flavours[0]),
         LG.leg_kill_sweep(LG.kill_cases(G.Rng(seed + 32), N(tier, 4, 24)), flavours[0], max_points=N(tier, 14, 200)),
